@@ -1,0 +1,5 @@
+//go:build !verif
+
+package db
+
+func verifOnWrite(op string, key []byte, size int) {}
